@@ -82,6 +82,46 @@ def frame_obligations(ex: Exec, c: Contract, st_exit: State, st_entry: State) ->
         ex.oblige(st_exit, "frame", key, goal, tags=list(set(["C14"] + c.tags)))
 
 
+MUTATORS = {"append", "remove", "extend", "pop", "insert", "add", "discard", "clear", "update", "sort", "reverse",
+            "setdefault", "popitem", "intersection_update", "difference_update", "symmetric_difference_update"}
+
+
+def inplace_param_mutations(fi: FuncInfo, c: Contract) -> List[Tuple[str, int, str]]:
+    """Syntactic frame check (C14): in-place mutation (augmented assignment, mutator method, item/attribute store) of an
+    object that may be a *parameter's* container value.  Aliases through plain `x = param` assignments are followed.
+    Containers only: augmented assignment on ints/strings rebinds and is harmless, so parameters whose declared or
+    annotated type is int/bool/str/record/ref are ignored for `op=`."""
+    node = fi.node
+    if isinstance(node, ast.Lambda):
+        return []
+    params = [a.arg for a in node.args.posonlyargs + node.args.args]
+    scalar = set()
+    for a in node.args.posonlyargs + node.args.args:
+        ty = c.params.get(a.arg) or ty_from_ast(a.annotation, fi.globals)
+        if ty is not None and ty.kind in ("int", "bool", "str", "rec", "enum", "abs", "cls", "none"):
+            scalar.add(a.arg)
+    alias = {p: p for p in params if p != "self" and p not in scalar}
+    rebound = set()
+    out: List[Tuple[str, int, str]] = []
+    allowed = {m.split(":", 1)[1] for m in c.modifies if m.startswith("param:")}
+    for n in ast.walk(node):
+        if isinstance(n, ast.Assign) and len(n.targets) == 1 and isinstance(n.targets[0], ast.Name):
+            t = n.targets[0].id
+            if isinstance(n.value, ast.Name) and n.value.id in alias:
+                alias[t] = alias[n.value.id]
+    for n in ast.walk(node):
+        if isinstance(n, ast.AugAssign) and isinstance(n.target, ast.Name) and n.target.id in alias:
+            if isinstance(n.op, (ast.BitAnd, ast.BitOr, ast.Sub, ast.Add, ast.BitXor)):
+                out.append((alias[n.target.id], n.lineno, f"`{n.target.id} {type(n.op).__name__}= ...` mutates a container in place"))
+        if isinstance(n, ast.Call) and isinstance(n.func, ast.Attribute) and n.func.attr in MUTATORS \
+                and isinstance(n.func.value, ast.Name) and n.func.value.id in alias:
+            out.append((alias[n.func.value.id], n.lineno, f"`{n.func.value.id}.{n.func.attr}(...)`"))
+        if isinstance(n, ast.Subscript) and isinstance(n.ctx, (ast.Store, ast.Del)) and isinstance(n.value, ast.Name) \
+                and n.value.id in alias:
+            out.append((alias[n.value.id], n.lineno, f"`{n.value.id}[...] = ...`"))
+    return [(p, ln, why) for p, ln, why in out if p not in allowed]
+
+
 def verify_function(c: Contract, timeout_s: float = 10.0, solve: bool = True) -> FunctionReport:
     rep = FunctionReport(c.target)
     t0 = time.time()
@@ -120,6 +160,9 @@ def verify_function(c: Contract, timeout_s: float = 10.0, solve: bool = True) ->
             return rep
         st_entry = st
         ex.entry_view = OldView(ex, st_entry)
+        for pname, ln, why in inplace_param_mutations(fi, c):
+            ex.oblige(st_entry, "frame", f"inplace:{pname}@{ln}", z3.BoolVal(False), tags=list(set(["C14"] + c.tags)),
+                      where=f"{fi.file}:{ln}", note=f"parameter `{pname}` is not in the contract's modifies clause but {why}")
         if isinstance(fi.node, ast.Lambda):
             outs = [("return", v, s2) for v, s2 in ex.ev(fi.node.body, st)]
         else:
